@@ -1908,7 +1908,7 @@ add_error:
                 switch ($2->kind) {
                 case NODE_NUMBER:
                     $$ = $2;
-                    $$->v.number = -$$->v.number;
+                    $$->v.number = LPC_INT_NEG ($$->v.number); /* wraps like the runtime */
                     break;
                 case NODE_REAL:
                     $$ = $2;
